@@ -533,6 +533,41 @@ def _disjuncts(e):
     return [e]
 
 
+def est_rows(q, db):
+    """Upper bound on the number of rows a query term returns (and has to be materialised by the reference evaluator and
+    shipped by the engine): joins multiply, unions add, semi/anti joins and filters keep at most their input."""
+    t = q[0]
+    if t == "scan":
+        return len(db[q[1]][1])
+    if t == "values":
+        return len(q[1])
+    if t in ("filter", "distinct", "project", "sort"):
+        return est_rows(q[-1], db)
+    if t == "join":
+        l, r = est_rows(q[3], db), est_rows(q[4], db)
+        if q[1] in ("semi", "anti"):
+            return l
+        return max(l * r, l, r)          # outer joins keep unmatched rows
+    if t == "agg":
+        return max(1, est_rows(q[-1], db))
+    if t == "aggsets":
+        return max(1, est_rows(q[-1], db)) * max(1, len(q[2]) if isinstance(q[2], (list, tuple)) else 1)
+    if t == "union":
+        return est_rows(q[2], db) + est_rows(q[3], db)
+    if t == "limit":
+        return min(q[1], est_rows(q[-1], db))
+    return 1
+
+
+def max_intermediate(q, db):
+    """The largest est_rows over all subterms: a LIMIT on top does not make the join below it small."""
+    best = est_rows(q, db)
+    for x in q[1:]:
+        if isinstance(x, tuple) and x and isinstance(x[0], str) and x[0] in ("scan", "values", "filter", "distinct", "project", "sort", "join", "agg", "aggsets", "union", "limit"):
+            best = max(best, max_intermediate(x, db))
+    return best
+
+
 def _is_const(t):
     """No column reference (own or outer) and no subquery below t."""
     if isinstance(t, tuple):
